@@ -21,8 +21,25 @@ INIT_REL = "onnxscript/onnx_opset/__init__.py"
 TOP_INIT_REL = "onnxscript/__init__.py"
 
 
+# every text whose code was written into a table during the current `emit_lean` (the complete name set, by construction)
+_ENC_SEEN: set[str] = set()
+
+
 def enc(s: str) -> int:
+    _ENC_SEEN.add(s)
     return int.from_bytes(b"\x01" + s.encode("utf-8"), "big")
+
+
+def lean_str(s: str) -> str:
+    out = []
+    for ch in s:
+        if ch in '"\\':
+            out.append("\\" + ch)
+        elif 32 <= ord(ch) < 127:
+            out.append(ch)
+        else:
+            out.append("\\u{%x}" % ord(ch))
+    return '"' + "".join(out) + '"'
 
 
 def dec(n: int) -> str:
@@ -512,12 +529,22 @@ def dep_live_cells(classes: list[dict], schemas: list[dict]) -> list[list]:
     return out
 
 
+def extract_ir_map() -> list[list]:
+    """`onnx.helper.OP_SET_ID_VERSION_MAP` of the installed onnx (read by `values.select_ir_version`):
+    [[domain, opset version, ir_version], …] in the dict's own order."""
+    import onnx.helper
+
+    return [[d, int(v), int(ir)] for (d, v), ir in onnx.helper.OP_SET_ID_VERSION_MAP.items()]
+
+
 def extract_all(repo: Path | None = None) -> dict:
     repo = repo or core.REPO
+    _ENC_SEEN.clear()
     classes = extract_classes(repo)
     schemas = extract_schemas()
     ex = extract_exports(repo)
-    return {"classes": classes, "schemas": schemas, **ex}
+    # texts encoded while extracting (string defaults, dumps of other defaults); `emit_lean` adds those it encodes itself
+    return {"classes": classes, "schemas": schemas, "ir_map": extract_ir_map(), **ex, "_names": sorted(_ENC_SEEN)}
 
 
 # --------------------------------------------------------------------------- Lean emission
@@ -588,6 +615,7 @@ def emit_lean(data: dict, outdir: Path | None = None) -> dict:
     outdir = outdir or GEN
     outdir.mkdir(parents=True, exist_ok=True)
     files: dict[str, str] = {}
+    _ENC_SEEN.clear()
 
     # ---- schemas, one module per domain
     doms = sorted({s["domain"] for s in data["schemas"]})
@@ -714,6 +742,12 @@ def emit_lean(data: dict, outdir: Path | None = None) -> dict:
         + "/-- every generated method's (class domain, name) lies in a grid chunk -/\n"
         + "theorem methods_covered : methodsCovered gridChunks classes = true := by decide +kernel\n\nend OV.Gen.C17\n"
     )
+    files["C17CoverK"] = (
+        HEADER
+        + "import OV.Gen.C17Grid\nnamespace OV.Gen.C17\nopen OV.C17\n\n"
+        + "/-- per (domain, name) the registered since_versions are pairwise distinct -/\n"
+        + "theorem keys_unique : keysUnique schemas gridChunks = true := by decide +kernel\n\nend OV.Gen.C17\n"
+    )
     files["C17Checks"] = (
         HEADER
         + "import OV.Gen.C17Tables\nnamespace OV.Gen.C17\nopen OV.C17\n\n"
@@ -726,7 +760,50 @@ def emit_lean(data: dict, outdir: Path | None = None) -> dict:
         + "/-- every generated method forwards each positional parameter (then `*vararg`) through `_prepare_inputs` in order and\n"
         + "each keyword-only parameter as `kw=kw` (stubs forward nothing) -/\n"
         + "theorem forwarding_ok : classes.all (fun c => c.methods.all forwardsOwnParams) = true := by decide +kernel\n\n"
+        + "/-- the parameter names of every generated `def` are pairwise distinct -/\n"
+        + "theorem params_distinct : classes.all (fun c => c.methods.all paramsDistinct) = true := by decide +kernel\n\n"
         + "end OV.Gen.C17\n"
+    )
+    files["C17IrMap"] = (
+        HEADER
+        + "import OV.Model.C17OpsetGen\nnamespace OV.Gen.C17\nopen OV.C17\n\n"
+        + "/-- `onnx.helper.OP_SET_ID_VERSION_MAP` of the installed onnx: ((domain, opset version), ir_version) -/\n"
+        + "def irMap : List ((Nat × Nat) × Nat) := "
+        + L_list([f"(({enc(d)}, {v}), {ir})" for d, v, ir in data.get("ir_map", [])])
+        + "\n\nend OV.Gen.C17\n"
+    )
+    # ---- the name set: every text that was encoded above, with the code this translator wrote, sorted by code
+    _ENC_SEEN.add("ai.onnx")
+    seen = sorted(_ENC_SEEN | set(data.get("_names", [])), key=lambda s: int.from_bytes(b"\x01" + s.encode("utf-8"), "big"))
+    NAMES_PER_MODULE = 400
+    name_mods = []
+    for k in range(0, len(seen), NAMES_PER_MODULE):
+        sl = seen[k : k + NAMES_PER_MODULE]
+        j = k // NAMES_PER_MODULE
+        name_mods.append(f"C17ChecksNames{j}")
+        files[f"C17ChecksNames{j}"] = (
+            HEADER
+            + "import OV.Model.C17OpsetGen\nnamespace OV.Gen.C17\nopen OV.C17\n\n"
+            + f"/-- texts {k}… of the name set (sorted by code) with the code the translator wrote for each -/\n"
+            + f"def names{j} : List (String × Nat) := "
+            + L_list([f"({lean_str(s)}, {int.from_bytes(b'\x01' + s.encode('utf-8'), 'big')})" for s in sl], per_line=True)
+            + f"\n\n/-- the translator's code of every text is the model's `enc` of it (the kernel evaluates `enc` on the strings) -/\n"
+            + f"theorem names{j}_enc : names{j}.all (fun p => enc p.1 == p.2) = true := by decide +kernel\n\nend OV.Gen.C17\n"
+        )
+    files["C17ChecksNames"] = (
+        HEADER
+        + "".join(f"import OV.Gen.{m}\n" for m in name_mods)
+        + "namespace OV.Gen.C17\nopen OV.C17\n\n"
+        + "/-- every text that occurs (as its code) in the regenerated tables: operator, class, module, parameter, attribute and\n"
+        + "domain names, string defaults, dumps of other defaults -/\n"
+        + "def names : List (String × Nat) := "
+        + " ++ ".join(f"names{j}" for j in range(len(name_mods)))
+        + "\n\ntheorem names_enc : names.all (fun p => enc p.1 == p.2) = true := by\n"
+        + "  simp only [names, List.all_append, Bool.and_eq_true]\n  exact "
+        + ("⟨" * (len(name_mods) - 1))
+        + (", ".join([f"names0_enc"] + [f"names{j}_enc⟩" for j in range(1, len(name_mods))]))
+        + "\n\n/-- the codes are strictly increasing along the list: distinct texts of the name set have distinct codes -/\n"
+        + "theorem names_increasing : increasing (names.map Prod.snd) = true := by decide +kernel\n\nend OV.Gen.C17\n"
     )
     changed = {}
     keep = set()
